@@ -416,3 +416,73 @@ def r6(ctx, R):
             R.check(df == de, f'base_transfer_MPI.{m} :: normal form and data-dependency order equal the reference', w, 'same def-use order', sorted(de - df)[:3] + sorted(df - de)[:3])
         else:
             R.bad(f'base_transfer_MPI.{m} :: normal form equals the reference', w, missing[:4], extra[:4])
+
+
+@rule('C08', 'C08.R7', 'MPI flavours of the convergence controllers implement the rule of their serial sibling (retry counter re-mapping, single source of the block step size, Tend limit) - shared with C09.R4/R5/R10', floor=10)
+def r7(ctx, R):
+    from . import c09
+    c09.r4(ctx, R)
+    c09.r5(ctx, R)
+    c09.r10(ctx, R)
+
+
+@rule('C08', 'C08.R3b', 'the buffer handed to a non-blocking send is not written or received into before it is rebound (no buffer handed to a non-blocking send is modified before that send completes)', floor=3)
+def r3b(ctx, R):
+    repo = ctx.repo
+    n_sites = 0
+    for m, ci, fn in repo.all_functions():
+        if not any(x in m.relpath for x in SCOPE):
+            continue
+        sends = [c for c in ast.walk(fn) if isinstance(c, ast.Call) and ast.unparse(c.func) in ('self.Send', 'self.send', 'comm.Isend', 'comm.Issend', 'comm.isend') and _kw(c).get('blocking') != 'True']
+        if not sends:
+            continue
+        cfg = FuncCFG(fn)
+        name = (ci.name + '.' if ci else '') + fn.name
+        w = qual(m, ci, fn)
+        R.fn(w)
+        for c in sends:
+            buf = _kw(c).get('buffer') or _kw(c).get('data') or (ast.unparse(c.args[0]) if c.args and ast.unparse(c.func).startswith('comm.') else None)
+            if buf is None:
+                continue
+            names = sorted({x.id for x in ast.walk(ast.parse(buf, mode='eval')) if isinstance(x, ast.Name) and x.id not in ('self', 'MPI')})
+            snode = [n for n in cfg.stmt_of if any(y is c for y in cfg.calls_at(n))]
+            if not snode or not names:
+                continue
+            n_sites += 1
+            b = names[0]
+            rebinds = [n for n, s in cfg.stmt_of.items() if isinstance(s, ast.Assign) and any(isinstance(t, ast.Name) and t.id == b for t in s.targets)]
+            writes = []
+            for n, s in cfg.stmt_of.items():
+                if n == snode[0]:
+                    continue
+                if isinstance(s, ast.Assign) and any(isinstance(t, ast.Subscript) and isinstance(t.value, ast.Name) and t.value.id == b for t in s.targets):
+                    writes.append((n, ast.unparse(s)[:50]))
+                for cc in cfg.calls_at(n):
+                    if ast.unparse(cc.func) in ('self.Recv', 'comm.Recv', 'comm.Irecv') and b in (_kw(cc).get('buffer', '') + ' '.join(ast.unparse(a) for a in cc.args)):
+                        writes.append((n, ast.unparse(cc)[:60]))
+            bad = [txt for n, txt in writes if cfg.reachable(snode[0], n) and not cfg.must_pass(snode[0], n, rebinds)]
+            R.check(not bad, f'{name} :: buffer `{b}` of the non-blocking {ast.unparse(c.func)} is not touched again before it is re-allocated', w, f'every later write to {b} is preceded by `{b} = <new array>`', bad)
+    if n_sites < 3:
+        raise AnalysisError(f'C08.R3b: only {n_sites} non-blocking send sites with a named buffer found')
+
+
+@rule('C08', 'C08.R8', 'controller_MPI.run: the test that decides to split the communicator is the exact complement of the activity predicate (same threshold), otherwise ranks disagree about who is still active', floor=2)
+def r8(ctx, R):
+    repo = ctx.repo
+    fn = repo.func(MPI_REL, 'controller_MPI.run')
+    w = f'{MPI_REL}:controller_MPI.run'
+    R.fn(w)
+    cfg = FuncCFG(fn)
+    act = [s for s in walk_no_nested(fn) if isinstance(s, ast.Assign) and ast.unparse(s.targets[0]) == 'active' and isinstance(s.value, ast.Compare)]
+    thr = sorted({ast.unparse(s.value.comparators[0]) for s in act})
+    ops = sorted({type(s.value.ops[0]).__name__ for s in act})
+    R.check(len(act) == 2 and len(thr) == 1 and ops == ['Lt'], 'controller_MPI.run :: active = time < THRESHOLD with one threshold at both sites', w, 'time < Tend - 10*eps (x2)', [ast.unparse(s.value) for s in act])
+    sp = [(n, s) for n, s in cfg.stmt_of.items() if isinstance(s, ast.Assign) and ast.unparse(s.value) == 'comm_active.Split(active)']
+    ok = len(sp) == 1
+    found = None
+    if ok:
+        g = [t for t, p in cfg.guards[id(sp[0][1])] if 'Tend' in ast.unparse(t)]
+        ok = len(g) == 1 and isinstance(g[0], ast.Compare) and isinstance(g[0].ops[0], ast.GtE) and thr and ast.unparse(g[0].comparators[0]) == thr[0]
+        found = ast.unparse(g[0]) if g else None
+        ok = ok and ast.unparse(g[0].left) == 'tend + sum(all_dt[:comm_active.size - 1])'
+    R.check(ok, 'controller_MPI.run :: split test `last rank start >= THRESHOLD` uses the threshold of the activity predicate', w, f'tend + sum(all_dt[:comm_active.size - 1]) >= {thr[0] if thr else "?"}', found)
